@@ -8,6 +8,18 @@ def vocabulary : List (Bytes × Kind) := [(sb "require", .control), (sb "if", .c
 /-- every definition of the table is a word of the vocabulary, in its role -/
 def SpeaksOnly (T : Table) : Bool := T.all (fun d => decide ((d.name, d.kind) ∈ vocabulary))
 
+/-- the tags each command admits (commands not listed admit none) -/
+def tagVocabulary : List (Bytes × List Bytes) := [(sb "address", [sb ":comparator", sb ":all", sb ":localpart", sb ":domain", sb ":is", sb ":contains", sb ":matches", sb ":count", sb ":value", sb ":regex"]), (sb "body", [sb ":comparator", sb ":raw", sb ":content", sb ":text", sb ":is", sb ":contains", sb ":matches", sb ":count", sb ":value", sb ":regex"]), (sb "currentdate", [sb ":zone", sb ":comparator", sb ":is", sb ":contains", sb ":matches", sb ":count", sb ":value", sb ":regex"]), (sb "date", [sb ":zone", sb ":originalzone", sb ":comparator", sb ":is", sb ":contains", sb ":matches", sb ":count", sb ":value", sb ":regex"]), (sb "envelope", [sb ":comparator", sb ":all", sb ":localpart", sb ":domain", sb ":is", sb ":contains", sb ":matches", sb ":count", sb ":value", sb ":regex"]), (sb "fileinto", [sb ":copy", sb ":create", sb ":flags"]), (sb "hasflag", [sb ":comparator", sb ":is", sb ":contains", sb ":matches", sb ":count", sb ":value", sb ":regex"]), (sb "header", [sb ":comparator", sb ":is", sb ":contains", sb ":matches", sb ":count", sb ":value", sb ":regex"]), (sb "keep", [sb ":flags"]), (sb "redirect", [sb ":copy"]), (sb "size", [sb ":over", sb ":under"]), (sb "vacation", [sb ":days", sb ":seconds", sb ":subject", sb ":from", sb ":addresses", sb ":mime", sb ":handle"])]
+
+def tagsOf (d : CmdDef) : List Bytes :=
+  d.args.flatMap (fun a => if decide (ArgType.tag ∈ a.types) then (a.values.getD []) ++ a.extValues.map (·.1) else [])
+
+def frozenTags (n : Bytes) : List Bytes := ((tagVocabulary.find? (fun p => p.1 == n)).map (·.2)).getD []
+
+/-- every definition admits exactly the tags the frozen vocabulary gives its command -/
+def TagsExactly (T : Table) : Bool :=
+  T.all (fun d => (tagsOf d).all (fun t => decide (t ∈ frozenTags d.name)) && (frozenTags d.name).all (fun t => decide (t ∈ tagsOf d)))
+
 /-- every word of the vocabulary has a definition -/
 def SpeaksAll (T : Table) : Bool := vocabulary.all (fun (n, k) => T.any (fun d => d.name == n && d.kind == k))
 
